@@ -114,6 +114,9 @@ def run(ctx):
             return
         if nf.mixed:
             ctx.count("mixed_base_numeric_comparisons")
+            if abs(sum(core.sf(e) * __import__("math").log10(bb) for bb, e in nf.prefix.items())) > 250:
+                ctx.count("mixed_base_out_of_float_range_skipped")
+                return
             a, b = oracle.prefix_value(real.prefix), nf.prefix_value()
             if abs(a - b) > abs(b) * Fraction(1, 10**9):
                 ctx.violation("C02:mixed-base-scale-differs", f"{what}: {model.show(t)} prefix scale {core.sf(a)!r} vs {core.sf(b)!r}", {"term": t})
